@@ -108,7 +108,38 @@ def catalogue_c12(tier):
     return cs
 
 
-CATALOGUES = {'C19': catalogue_c19, 'C05': catalogue_c05, 'C11': catalogue_c11, 'C12': catalogue_c12}
+def qcase(name, threads, kind='queue', aborting=(), posting=()):
+    c = case('c08/' + name, T('never'), threads, pre=[], tags=[kind])
+    c.update({'kind': kind, 'aborting': list(aborting), 'posting': list(posting)})
+    return c
+
+
+def P(task):
+    return {'op': 'post', 'task': task}
+
+
+AB = {'op': 'abort'}
+
+
+def catalogue_c08(tier):
+    cs = [qcase('1client-3posts', [[P(11), P(12), P(13)]]),
+          qcase('2clients', [[P(11), P(12)], [P(21), P(22)]]),
+          qcase('client-vs-abort', [[P(11), P(12), P(13)], [AB]]),
+          qcase('post-abort-post', [[P(11), AB, P(12)]]),
+          qcase('abort-then-post', [[AB], [P(21)]]),
+          qcase('abort-inside-task', [[P(11), P(12)], [P(21)]], aborting=[11]),
+          qcase('post-inside-task', [[P(11), P(12)]], posting=[11]),
+          qcase('2clients-vs-abort', [[P(11), P(12)], [P(21)], [AB]]),
+          qcase('default-scheduler', [[P(11), P(12)], [P(21)]], kind='default_queue')]
+    if tier == 'thorough':
+        cs += [qcase('3clients', [[P(11), P(12)], [P(21), P(22)], [P(31)]]),
+               qcase('2aborters', [[P(11), P(12)], [AB], [AB]]),
+               qcase('abort-inside-and-outside', [[P(11), P(12)], [AB]], aborting=[12]),
+               qcase('post-inside-vs-abort', [[P(11)], [AB]], posting=[11])]
+    return cs
+
+
+CATALOGUES = {'C08': catalogue_c08, 'C19': catalogue_c19, 'C05': catalogue_c05, 'C11': catalogue_c11, 'C12': catalogue_c12}
 
 
 # ------------------------------------------------------------------------------------------ engine
